@@ -159,6 +159,51 @@ func round(r int, rng *rand.Rand) {
 	if n != thr {
 		run.Violation(prop+"/par:capacity-after-quiescence", fmt.Sprintf("round %d: with nothing in flight the resource admitted %d entries, threshold %d", r, n, thr), d)
 	}
+	// C04: first sight of a resource from all goroutines at once (fewer callers than the threshold, so nothing may be
+	// rejected and nothing may overshoot), then the resource is filled sequentially: it must hold exactly the threshold
+	if prop == "C04" {
+		for f := 0; f < 30; f++ {
+			fresh := fmt.Sprintf("%s-fresh-%d", res, f)
+			N := G + 2
+			isolation.LoadRulesOfResource(fresh, []*isolation.Rule{{ID: "f", Resource: fresh, MetricType: isolation.Concurrency, Threshold: uint32(N)}})
+			gate := make(chan struct{})
+			var fw sync.WaitGroup
+			var fmu sync.Mutex
+			var held []*base.SentinelEntry
+			for g := 0; g < G; g++ {
+				fw.Add(1)
+				go func() {
+					defer fw.Done()
+					<-gate
+					if e, b := sentinel.Entry(fresh); b == nil {
+						fmu.Lock()
+						held = append(held, e)
+						fmu.Unlock()
+					}
+				}()
+			}
+			close(gate)
+			fw.Wait()
+			first := len(held)
+			for len(held) < N+3 {
+				e, b := sentinel.Entry(fresh)
+				if b != nil {
+					break
+				}
+				held = append(held, e)
+			}
+			total := len(held)
+			for _, e := range held {
+				e.Exit()
+			}
+			isolation.ClearRulesOfResource(fresh)
+			if first != G || total != N {
+				run.Violation(prop+"/par:first-sight-capacity", fmt.Sprintf("round %d: %d goroutines made the first requests of a resource with threshold %d at the same moment: %d admitted; filled up sequentially afterwards it held %d entries", r, G, N, first, total), d)
+				break
+			}
+			run.Count("first_sight_resources", 1)
+		}
+	}
 	run.Count("admitted", admitted)
 	run.Count("blocked", blocked)
 	run.Count("capacity_probes", 1)
